@@ -4,7 +4,7 @@
 From Coq Require Import List NArith Bool Arith Sorted.
 From Coq Require Import Strings.Byte.
 Require Import BS.Bytes BS.Common BS.Api BS.Layout BS.Format BS.FormatFacts BS.Spec BS.SpecStep.
-Require Import BS.FS BS.FSFacts BS.Meta BS.MetaFacts BS.Header BS.Reader BS.ReaderFacts BS.Index BS.Data BS.DataFacts BS.Seek BS.Series BS.SeriesFacts BS.Sections BS.ExtractFacts BS.HeaderFacts BS.OpenFacts BS.TornFacts BS.TornGenFacts BS.ConformFacts BS.MetaGenFacts BS.World.
+Require Import BS.FS BS.FSFacts BS.Meta BS.MetaFacts BS.Header BS.Reader BS.ReaderFacts BS.Index BS.Data BS.DataFacts BS.Seek BS.Series BS.SeriesFacts BS.Sections BS.ExtractFacts BS.HeaderFacts BS.OpenFacts BS.TornFacts BS.TornGenFacts BS.ConformFacts BS.MetaGenFacts BS.World BS.ParseFileFacts.
 Require BSgen.MetaLayout.
 Import ListNotations.
 
@@ -50,6 +50,18 @@ Theorem C07_header_roundtrip : forall (p:N) (uhdr:list byte) popt, (p < 2^64)%N 
   check_and_split (params_to_text BSgen.Consts.version p ++ uhdr) popt = Ok (p, uhdr).
 Proof. exact header_roundtrip. Qed.
 Print Assumptions C07_header_roundtrip.
+
+(* (F) the independent reader's view of the header: Layer F's parse_file - the reader the judge and tools/literal.py model,
+   which knows only the documented layout and the two anchor phrases of the preamble - applied to the header the library
+   writes returns the stored payload size, exactly the stored user header and exactly the bytes behind the header, for every
+   payload size below 2^64, every user header and every content *)
+Theorem C07_independent_reader_on_written_header : forall (p:N) (uhdr region:list byte), (p < 2^64)%N ->
+  let header := params_to_text BSgen.Consts.version p ++ uhdr in
+  (len header <= 65535)%N ->
+  parse_file (outer header ++ region)
+  = Some {| pf_p := N.to_nat p; pf_user := uhdr; pf_region := region; pf_header_len := (4 + len header)%N |}.
+Proof. exact parse_file_ok. Qed.
+Print Assumptions C07_independent_reader_on_written_header.
 
 (* (I refines F) THE BACKWARD DIRECTION for reference-encoded files: a data file laid out as documented - outer header, the
    preamble text, any user header, then the reference encoding (Layer F) of ANY well-formed list of lines - with no index file
